@@ -14,3 +14,11 @@ Import ListNotations.
 Definition bytes := list Z.
 Definition nil_bytes : bytes := [].
 Definition lit (s : string) : bytes := map (fun a => Z.of_N (N_of_ascii a)) (list_ascii_of_string s).
+
+(* bytes.Buffer and byte-slice expressions (bytesbuf.go; the hand-written encoder of maps/linkedhashmap/serialization.go):
+   a buffer is the list of the bytes written so far.  [sub b lo hi] is b[lo:hi]; Go panics when the bounds are not
+   0 <= lo <= hi <= cap(b): NOT modelled (as for every slice access of the value mode).  Only ASCII runes are written. *)
+Definition blen (b : bytes) : Z := Z.of_nat (List.length b).
+Definition sub (b : bytes) (lo hi : Z) : bytes := List.skipn (Z.to_nat lo) (List.firstn (Z.to_nat hi) b).
+Definition write (buf p : bytes) : bytes := (buf ++ p)%list.
+Definition write_rune (buf : bytes) (r : Z) : bytes := (buf ++ [r])%list.
